@@ -495,6 +495,200 @@ theorem refresh_follows_reported_master (s : St) (w : World) (hstop : s.stopped 
           simp only [hinst]
           exact ⟨a, rfl, hva, by simp [install], by simp [install], by simpa using hrole⟩
 
+/-! ### the role is checked in the SAME evaluation, also when the address does not change -/
+
+/-- fields the evaluation never touches -/
+def Same (s s' : St) : Prop := s'.mode = s.mode ∧ s'.stopped = s.stopped
+
+theorem switchTarget_same (s : St) (w : World) (addr : Addr) (isMaster : Bool) :
+    Same s (switchTarget s w addr isMaster).1 := by
+  rcases switchTarget_cases s w addr isMaster with ⟨h1, _⟩ | ⟨h1, _⟩ | ⟨h1, _⟩ <;> rw [h1]
+  · exact ⟨rfl, rfl⟩
+  · unfold closeStored; cases isMaster <;> exact ⟨rfl, rfl⟩
+  · unfold install; cases isMaster <;> exact ⟨rfl, rfl⟩
+
+/-- every successful `_switchTarget` — whether it dialled a new connection or REUSED the stored one
+    because the address is unchanged — sent ROLE during this call and got the required role -/
+theorem switch_checks_role (s : St) (w : World) (addr : Addr) (isMaster : Bool) (hstop : s.stopped = false)
+    (h : (switchTarget s w addr isMaster).2.2.2 = none) :
+    Act.role addr (.arr (if isMaster then Role.master else Role.slave)) ∈ (switchTarget s w addr isMaster).2.2.1 := by
+  unfold switchTarget at h ⊢
+  simp only [hstop, Bool.false_eq_true, if_false] at h ⊢
+  split
+  · rename_i hd; simp [hd] at h
+  · rename_i hd
+    simp only [hd, if_false] at h
+    cases hm : roleMatches (w.roleOf addr) (if isMaster = true then Role.master else Role.slave) with
+    | none => simp [hm] at h
+    | some b =>
+      cases b with
+      | false => simp [hm] at h
+      | true =>
+        have := roleMatches_true _ _ hm
+        simp [this]
+
+theorem switchByMode_same (s : St) (w : World) (m r : Option Addr) : Same s (switchByMode s w m r).1 := by
+  unfold switchByMode
+  cases s.mode with
+  | replicaOnly => exact switchTarget_same s w _ false
+  | masterOnly => exact switchTarget_same s w _ true
+  | both =>
+    have ha := switchTarget_same s w (m.getD 0) true
+    have hb := switchTarget_same (switchTarget s w (m.getD 0) true).1 (switchTarget s w (m.getD 0) true).2.1 (r.getD 0) false
+    exact ⟨hb.1.trans ha.1, hb.2.trans ha.2⟩
+
+theorem tryFront_same (s : St) (w : World) : Same s (tryFront s w).1 := by
+  unfold tryFront
+  cases hl : s.sentinels with
+  | nil => exact ⟨rfl, rfl⟩
+  | cons a rest =>
+    simp only []
+    have h1 : Same s (if keepSConn s a = true then s else withSConn s ⟨a, false, .err⟩) := by
+      split <;> exact ⟨rfl, rfl⟩
+    generalize (if keepSConn s a = true then s else withSConn s ⟨a, false, .err⟩) = s1 at h1
+    split
+    · exact h1
+    · cases hlw : listWatch s.mode (w.sent a) with
+      | error e => exact h1
+      | ok res =>
+        obtain ⟨m, r, others⟩ := res
+        simp only []
+        have h2 : Same s (noteReported s1 m r others) := h1
+        have h3 := switchByMode_same (noteReported s1 m r others) w m r
+        split
+        · exact ⟨h3.1.trans h2.1, h3.2.trans h2.2⟩
+        · exact ⟨h3.1.trans h2.1, h3.2.trans h2.2⟩
+
+/-- one successful refresh iteration in master-only mode: the stored master got ROLE "master" in it -/
+theorem tryFront_ok_checked (s : St) (w : World) (hstop : s.stopped = false) (hmode : s.mode = .masterOnly)
+    (hok : (tryFront s w).2.2.2 = true) :
+    ∃ a, (tryFront s w).1.mConn = some ⟨a, false, .arr .master⟩ ∧ a ∈ (tryFront s w).1.reportedM ∧
+      Act.role a (.arr .master) ∈ (tryFront s w).2.2.1 := by
+  unfold tryFront at hok ⊢
+  cases hl : s.sentinels with
+  | nil => simp [hl] at hok
+  | cons sent rest =>
+    simp only [hl] at hok ⊢
+    have hs1 : (if keepSConn s sent = true then s else withSConn s ⟨sent, false, .err⟩).stopped = false ∧
+        (if keepSConn s sent = true then s else withSConn s ⟨sent, false, .err⟩).mode = .masterOnly := by
+      split <;> simp [withSConn, hstop, hmode]
+    generalize (if keepSConn s sent = true then s else withSConn s ⟨sent, false, .err⟩) = s1 at hs1 hok ⊢
+    split at hok
+    · simp at hok
+    · rename_i hdial
+      simp only [hdial, if_false]
+      cases hlw : listWatch s.mode (w.sent sent) with
+      | error e => simp [hlw] at hok
+      | ok res =>
+        obtain ⟨m, r, others⟩ := res
+        obtain ⟨a, hma, hva⟩ := (listWatch_shape _ _ _ _ _ hlw).1 (by simp [hmode])
+        simp only [hlw] at hok ⊢
+        subst hma
+        have hs2 : (noteReported s1 (some a) r others).stopped = false ∧
+            (noteReported s1 (some a) r others).mode = .masterOnly ∧
+            a ∈ (noteReported s1 (some a) r others).reportedM := by simp [noteReported, hs1]
+        generalize noteReported s1 (some a) r others = s2 at hs2 hok ⊢
+        have hsb : switchByMode s2 w (some a) r = switchTarget s2 w a true := by
+          unfold switchByMode; simp [hs2.2.1]
+        rw [hsb] at hok ⊢
+        cases herr : (switchTarget s2 w a true).2.2.2 with
+        | some e => simp [herr] at hok
+        | none =>
+          obtain ⟨hrole, hinst⟩ := switch_success s2 w a true hs2.1 herr
+          have hact := switch_checks_role s2 w a true hs2.1 herr
+          simp only [hinst]
+          refine ⟨a, by simp [install], by simpa [install] using hs2.2.2, ?_⟩
+          simp only [if_true] at hact
+          simp [hact]
+
+theorem refreshLoop_ok_checked (head : Addr) (budget : Nat) (s : St) (w : World) (acts : List Act)
+    (hstop : s.stopped = false) (hmode : s.mode = .masterOnly)
+    (hok : (refreshLoop head budget s w acts).2.2.2 = true) :
+    ∃ a, (refreshLoop head budget s w acts).1.mConn = some ⟨a, false, .arr .master⟩ ∧
+      a ∈ (refreshLoop head budget s w acts).1.reportedM ∧
+      Act.role a (.arr .master) ∈ (refreshLoop head budget s w acts).2.2.1 := by
+  induction budget generalizing s w acts with
+  | zero => simp [refreshLoop] at hok
+  | succ n ih =>
+    unfold refreshLoop at hok ⊢
+    simp only [hstop, Bool.false_eq_true, if_false] at hok ⊢
+    by_cases ht : (tryFront s w).2.2.2 = true
+    · simp only [ht, if_true] at hok ⊢
+      obtain ⟨a, h1, h2, h3⟩ := tryFront_ok_checked s w hstop hmode ht
+      exact ⟨a, h1, h2, List.mem_append_right _ h3⟩
+    · have ht' : (tryFront s w).2.2.2 = false := by simpa using ht
+      simp only [ht', Bool.false_eq_true, if_false] at hok ⊢
+      have hsame := tryFront_same s w
+      cases hmv : moveToBack (tryFront s w).1.sentinels (s.sentinels.headD 0) with
+      | nil => simp only [hmv] at hok; simp at hok
+      | cons f tail =>
+        simp only [hmv] at hok ⊢
+        by_cases hf : (f == head) = true
+        · simp [hf] at hok
+        · simp only [hf, if_false] at hok ⊢
+          exact ih _ _ _ (hsame.2.trans hstop) (hsame.1.trans hmode) hok
+
+/-- **target_was_role_checked_in_this_evaluation** (refresh). Whenever a refresh of a running master-only
+    client succeeds, the master connection it leaves behind — new OR reused because the sentinel named
+    the same address again — received a ROLE command during THIS refresh and answered "master", and its
+    address was named by a sentinel asked during this refresh or earlier. -/
+theorem target_was_role_checked_in_this_evaluation (s : St) (w : World) (budget : Nat)
+    (hstop : s.stopped = false) (hmode : s.mode = .masterOnly) (hne : s.sentinels ≠ [])
+    (hok : (refresh s w budget).2.2.2 = .ok) :
+    ∃ a, (refresh s w budget).1.mConn = some ⟨a, false, .arr .master⟩ ∧
+      Act.role a (.arr .master) ∈ (refresh s w budget).2.2.1 := by
+  unfold refresh at hok ⊢
+  cases hl : s.sentinels with
+  | nil => exact absurd hl hne
+  | cons head rest =>
+    simp only [hl] at hok ⊢
+    have hsame : (refreshLoop head budget s w []).1.stopped = false := by
+      have : ∀ (b : Nat) (s : St) (w : World) (acts : List Act), s.stopped = false →
+          (refreshLoop head b s w acts).1.stopped = false := by
+        intro b
+        induction b with
+        | zero => intro s w acts h; simpa [refreshLoop] using h
+        | succ n ih =>
+          intro s w acts h
+          unfold refreshLoop
+          simp only [h, Bool.false_eq_true, if_false]
+          have hs := tryFront_same s w
+          split
+          · exact hs.2.trans h
+          · split
+            · exact hs.2.trans h
+            · split
+              · exact hs.2.trans h
+              · exact ih _ _ _ (hs.2.trans h)
+      exact this budget s w [] hstop
+    simp only [hsame, Bool.false_eq_true, if_false] at hok ⊢
+    by_cases hlo : (refreshLoop head budget s w []).2.2.2 = true
+    · obtain ⟨a, h1, _, h3⟩ := refreshLoop_ok_checked head budget s w [] hstop hmode hlo
+      simp only [hlo, Bool.not_true, Bool.false_eq_true, if_false] at hok ⊢
+      exact ⟨a, h1, h3⟩
+    · simp [hlo] at hok
+
+/-- the same for the event path: a +switch-master / +reboot event that is accepted directly sends ROLE on
+    the (new or reused) connection to the named address before that connection carries primary traffic -/
+theorem event_target_was_role_checked (s : St) (w : World) (a : Addr) (hstop : s.stopped = false)
+    (h : (switchTarget { s with reportedM := a :: s.reportedM } w a true).2.2.2 = none) :
+    Act.role a (.arr .master) ∈ (switchTarget { s with reportedM := a :: s.reportedM } w a true).2.2.1 ∧
+    (switchTarget { s with reportedM := a :: s.reportedM } w a true).1.mConn = some ⟨a, false, .arr .master⟩ := by
+  have h1 := switch_checks_role { s with reportedM := a :: s.reportedM } w a true hstop h
+  have h2 := (switch_success { s with reportedM := a :: s.reportedM } w a true hstop h).2
+  simp only [if_true] at h1 h2
+  exact ⟨h1, by rw [h2]; simp [install]⟩
+
+/-- the seeded shortcut ("same address and healthy connection: nothing to do") is exactly what these
+    theorems exclude: on the reuse path the model still consumes a ROLE answer, and a demoted node fails -/
+example :
+    let s0 : St := { mode := .masterOnly, sentinels := [100], mAddr := some 0, mConn := some ⟨0, false, .arr .master⟩,
+                     reportedM := [0] }
+    let w : World := { sent := fun _ => ⟨true, some [], .addr 0, none⟩, nodeDialOk := fun _ => true,
+                       roles := [(0, [.arr .slave])] }
+    (refresh s0 w 8).2.2.2 = .failed ∧ (refresh s0 w 8).1.mConn = some ⟨0, true, .arr .slave⟩ ∧
+    Act.role 0 (.arr .slave) ∈ (refresh s0 w 8).2.2.1 := by decide
+
 /-! ### non-vacuity -/
 
 def demoWorld (roleN0 roleN1 : List RoleAns) (master : Addr) : World :=
